@@ -94,7 +94,7 @@ package http3
 //@   ensures [reserved-types-abort-the-connection] iff(called("field:closeConn") >= 1, result1 != nil && called("field:closeConn") == 1 && (t == 2 || t == 6 || t == 8 || t == 9) && called("Read") % 2 == 0 && lastresult("Read", 1) == nil)
 //@   modifies nothing
 //@ loop (p *frameParser) ParseNext #0
-//@   invariant called("field:closeConn") == 0
+//@   invariant called("field:closeConn") == 0 && called("Read") % 2 == 0
 //@   modifies nothing
 
 //@ func (c *rawConn) CloseWithError
